@@ -16,6 +16,8 @@ struct Ctx {
     hang_count: u64,
     deaths: BTreeMap<String, u64>,
     alloc_panics: u64,
+    /// alloc-class panics / deaths by reaching API: (count, first case)
+    alloc_by_api: BTreeMap<String, (u64, String)>,
     panic_cases: u64,
     thorough: bool,
     sites_seen: BTreeMap<String, u64>,
@@ -66,6 +68,10 @@ impl Ctx {
                     *cnt += 1;
                     if *cnt <= 3 {
                         self.rep.note(format!("worker death ({}): case {:?} :: {}", k, c.text.chars().take(200).collect::<String>(), d.chars().take(600).collect::<String>()));
+                    }
+                    if k == "alloc" {
+                        let e = self.alloc_by_api.entry(format!("death via {}", c.apis.first().cloned().unwrap_or_default())).or_insert((0, c.text.clone()));
+                        e.0 += 1;
                     }
                     let flagged = c.apis.iter().any(|a| a == CYCLIC_DEEP);
                     if k == "stack" && flagged {
@@ -124,6 +130,8 @@ impl Ctx {
         if is_alloc_panic(&p.msg) && !reserve_case {
             // gigantic allocation: outside the property
             self.alloc_panics += 1;
+            let e = self.alloc_by_api.entry(format!("panic via {}", c.apis.first().cloned().unwrap_or_default())).or_insert((0, c.text.clone()));
+            e.0 += 1;
             return;
         }
         // a collector on an infinite iterator: "capacity overflow" there means that the size hint was
@@ -486,6 +494,20 @@ fn replay_known(cx: &mut Ctx) {
     }
 }
 
+/// removes the scratch directories of the file-I/O cases (the workers' `io-w<pid>` directories next to
+/// their stderr files, and the in-process one)
+fn cleanup_io_scratch() {
+    let _ = std::fs::remove_dir_all(std::env::temp_dir().join(format!("c06-scratch-{}", std::process::id())));
+    let pool_dir = std::env::var("VERIF_SCRATCH").unwrap_or_else(|_| std::env::temp_dir().join(format!("c06-{}", std::process::id())).display().to_string());
+    if let Ok(rd) = std::fs::read_dir(&pool_dir) {
+        for e in rd.filter_map(|e| e.ok()) {
+            if e.file_name().to_string_lossy().starts_with("io-w") {
+                let _ = std::fs::remove_dir_all(e.path());
+            }
+        }
+    }
+}
+
 fn main() {
     let argv: Vec<String> = std::env::args().collect();
     if argv.iter().any(|a| a == "--worker") {
@@ -552,6 +574,7 @@ fn main() {
         hang_count: 0,
         deaths: BTreeMap::new(),
         alloc_panics: 0,
+        alloc_by_api: BTreeMap::new(),
         panic_cases: 0,
         thorough,
         sites_seen: BTreeMap::new(),
@@ -575,7 +598,9 @@ fn main() {
             println!("kernel request: {}", req);
             replay_kernel(&mut cx, req);
         }
-        std::process::exit(cx.rep.finish());
+        let code = cx.rep.finish();
+        cleanup_io_scratch();
+        std::process::exit(code);
     }
 
     let mut rng = Rng::new(args.seed);
@@ -632,6 +657,7 @@ fn main() {
     cx.rep.extra.insert("hang_examples".into(), json!(cx.hangs));
     cx.rep.extra.insert("worker_deaths".into(), json!(cx.deaths));
     cx.rep.extra.insert("alloc_class_panics_excluded".into(), json!(cx.alloc_panics));
+    cx.rep.extra.insert("alloc_class_by_api".into(), json!(cx.alloc_by_api.iter().map(|(k, v)| (k.clone(), json!({"n": v.0, "first": v.1.chars().take(300).collect::<String>()}))).collect::<BTreeMap<_, _>>()));
     cx.rep.extra.insert("cases_with_panic".into(), json!(cx.panic_cases));
     cx.rep.extra.insert("panic_sites_seen".into(), json!(cx.sites_seen));
     cx.rep.extra.insert("panic_site_apis".into(), json!(cx.site_apis));
@@ -642,6 +668,7 @@ fn main() {
         cx.rep.extra.insert("driver_requests".into(), json!(d.requests));
     }
     let code = cx.rep.finish();
+    cleanup_io_scratch();
     std::process::exit(code);
 }
 
